@@ -595,9 +595,195 @@ Proof.
   - (* uuid <- g *) cbn in Hw. rewrite Hw in Hr. discriminate.
 Qed.
 
+(* ------------------------------------------------------------------ float32/64, complex64/128, big.Float *)
+
+(* further laws of the oracles (standard library): a single digit is its own float text; big.NewFloat(float64(i))
+   and big.Float.SetString agree on 32-bit integers *)
+Definition law_digit_float (orc : bytes -> bytes -> option bytes) : Prop :=
+  forall b d, (d < 10)%N -> o_float orc b (to_decZ (Z.of_N d)) = ROk (FFin (to_decZ (Z.of_N d))).
+Definition law_bf_digit (orc : bytes -> bytes -> option bytes) : Prop :=
+  forall d, (d < 10)%N -> o_text orc (bs "bf") (to_decZ (Z.of_N d)) = ROk (to_decZ (Z.of_N d)).
+Definition law_nf (orc : bytes -> bytes -> option bytes) : Prop :=
+  forall z, - 2 ^ 31 <= z <= 2 ^ 31 - 1 -> o_text orc (bs "nf") (to_decZ z) = o_text orc (bs "bf") (to_decZ z).
+
+Lemma in_range_int32_wrap32 z : (- 2 ^ 31 <=? z) && (z <=? 2 ^ 31 - 1) = true -> wrap_k KInt32 z = z.
+Proof. intros H. apply wrap_k_id. unfold in_range_k. cbn. lia. Qed.
+
+Ltac fin_with tac := eexists; split; [tac | split; [reflexivity | intros ?n; apply xeqv_plain_refl; reflexivity]].
+
+Ltac solve_digit :=
+  match goal with
+  | Hw : wf_tok (WDigit ?d) = true, Hr : _ = RSome _, L1 : law_digit_float _, L2 : law_bf_digit _ |- _ =>
+      cbn in Hw; let Hd := fresh "Hd" in assert (Hd : (d < 10)%N) by (apply N.ltb_lt; exact Hw);
+      first [ rewrite (L1 _ d Hd) in Hr | rewrite (L2 d Hd) in Hr ]; cbn [of_o] in Hr; inversion Hr; subst;
+      split_digit d Hw; fin_with ltac:(reflexivity)
+  end.
+
+Ltac solve_int :=
+  match goal with
+  | Hw : wf_tok (WInt ?z) = true, Hr : context [o_float ?o ?b ?x] |- _ =>
+      cbn in Hw; unfold of_o in Hr;
+      let Eo := fresh "Eo" in destruct (o_float o b x) as [f0| |] eqn:Eo; try discriminate;
+      inversion Hr; subst;
+      fin_with ltac:(cbn -[o_float lift to_decZ wrap_s]; unfold conv_int;
+        first [ change (wrap_s 64 z) with (wrap_k KInt64 z); rewrite (in_range_int32_wrap64 z Hw)
+              | change (wrap_s 32 z) with (wrap_k KInt32 z); rewrite (in_range_int32_wrap32 z Hw) ];
+        rewrite Eo; reflexivity)
+  end.
+
+Ltac solve_float :=
+  match goal with
+  | Hr : context [o_float ?o ?b ?x] |- _ =>
+      unfold of_o in Hr;
+      let Eo := fresh "Eo" in destruct (o_float o b x) as [f0| |] eqn:Eo;
+      [ inversion Hr; subst;
+        fin_with ltac:(cbn -[o_float lift to_decZ]; unfold conv_float, parse_str; rewrite Eo; reflexivity)
+      | first [discriminate | destruct x; discriminate]
+      | discriminate ]
+  end.
+
+Ltac solve_complex :=
+  match goal with
+  | Hr : context [o_complex ?o ?b ?x] |- _ =>
+      unfold of_o in Hr;
+      let Eo := fresh "Eo" in destruct (o_complex o b x) as [[re im]| |] eqn:Eo;
+      [ inversion Hr; subst;
+        fin_with ltac:(cbn -[o_complex lift]; unfold parse_str; rewrite Eo; reflexivity)
+      | first [discriminate | destruct x; discriminate]
+      | discriminate ]
+  end.
+
+(* big.Float destinations: the same SetString on both sides; 'i' goes through big.NewFloat(float64(i)) *)
+Ltac solve_bigfloat :=
+  match goal with
+  | Hw : wf_tok (WInt ?z) = true, L3 : law_nf _, Hr : context [o_text ?o ?fn ?x] |- _ =>
+      cbn in Hw; unfold of_o in Hr;
+      let Eo := fresh "Eo" in destruct (o_text o fn x) as [t0| |] eqn:Eo; try discriminate;
+      inversion Hr; subst;
+      fin_with ltac:(
+        change (run_action o SBigFloatV (arm SBigFloatV (WInt z)) (WInt z))
+          with (lift (o_text o (bs "nf") (to_decZ (wrap_k KInt64 z))) (fun t => SV (XPtr (XBigFloat t))));
+        rewrite (in_range_int32_wrap64 z Hw); rewrite (L3 z ltac:(lia)); rewrite Eo; reflexivity)
+  | Hr : context [o_text ?o ?fn ?x] |- run_action _ _ (arm _ ?w) _ = _ /\ _ => fail
+  | Hr : context [o_text ?o ?fn ?x] |- exists v', run_action _ ?s (arm _ ?w) _ = _ /\ _ =>
+      unfold of_o in Hr;
+      let Eo := fresh "Eo" in destruct (o_text o fn x) as [t0| |] eqn:Eo;
+      [ inversion Hr; subst;
+        fin_with ltac:(
+          first [ change (run_action o s (arm s w) w) with (lift (o_text o (bs "bf") x) (fun t => SV (XPtr (XBigFloat t))))
+                | change (run_action o s (arm s w) w) with (parse_str o PBigFloat 0 NtBigFloat x); unfold parse_str ];
+          rewrite Eo; reflexivity)
+      | first [discriminate | destruct x; discriminate]
+      | discriminate ]
+  end.
+
+Definition float_type (t : gtype) : bool :=
+  match t with TF32 | TF64 | TC64 | TC128 | TBigFloat => true | _ => false end.
+
+Lemma float_arm_value orc te t s w v :
+  law_digit_float orc -> law_bf_digit orc -> law_nf orc ->
+  float_type t = true -> sleaf_of t = Some s ->
+  scalar_tok w = true -> wf_tok w = true ->
+  rep_scalar orc t (den w) = RSome v ->
+  exists v', run_action orc s (arm s w) w = SV v' /\ plain (post te s t v') = true /\ forall n, xeqv (S n) (post te s t v') v = true.
+Proof.
+  intros L1 L2 L3 Ht Hs Hsc Hw Hr.
+  destruct t; try discriminate; cbn in Hs; inversion Hs; subst s; clear Hs.
+  all: destruct w as [ | | | | |neg|d|z|z|txt|c|str|b|g|y mo dd tm utc|h mi sec fr utc|ws|ws|n fs nx|k' ws|k'|w'];
+    try discriminate; unfold rep_scalar in Hr; cbn [den] in Hr; cbv iota beta in Hr; try discriminate.
+  all: try (destruct c as [|c0 c1] eqn:Ec; [discriminate|]; rewrite <- Ec in *; clear Ec c0 c1).
+  all: try (destruct str as [|c0 c1] eqn:Ec; [discriminate|]; rewrite <- Ec in *; clear Ec c0 c1).
+  all: cbn [rep_scalar_core rep_float] in Hr; try discriminate.
+  all: try (inversion Hr; subst; done_val).
+  all: try solve_digit.
+  all: try solve_int.
+  all: try solve_complex.
+  all: try solve_float.
+  all: try solve_bigfloat.
+Qed.
+
+Ltac refuse_digit :=
+  match goal with
+  | Hw : wf_tok (WDigit ?d) = true, Hr : _ = RNone, L1 : law_digit_float _, L2 : law_bf_digit _ |- _ =>
+      exfalso; cbn in Hw; let Hd := fresh "Hd" in assert (Hd : (d < 10)%N) by (apply N.ltb_lt; exact Hw);
+      first [ rewrite (L1 _ d Hd) in Hr | rewrite (L2 d Hd) in Hr ]; discriminate
+  end.
+
+Ltac refuse_int :=
+  match goal with
+  | Hw : wf_tok (WInt ?z) = true, Hr : context [o_float ?o ?b ?x] |- _ =>
+      cbn in Hw; unfold of_o in Hr;
+      let Eo := fresh "Eo" in destruct (o_float o b x) as [f0| |] eqn:Eo; try discriminate;
+      left; eexists; cbn -[o_float lift to_decZ wrap_s]; unfold conv_int;
+      first [ change (wrap_s 64 z) with (wrap_k KInt64 z); rewrite (in_range_int32_wrap64 z Hw)
+            | change (wrap_s 32 z) with (wrap_k KInt32 z); rewrite (in_range_int32_wrap32 z Hw) ];
+      rewrite Eo; reflexivity
+  end.
+
+Ltac refuse_float :=
+  match goal with
+  | Hr : context [o_float ?o ?b ?x] |- _ =>
+      unfold of_o in Hr;
+      let Eo := fresh "Eo" in destruct (o_float o b x) as [f0| |] eqn:Eo; try discriminate;
+      left; eexists; cbn -[o_float lift to_decZ]; unfold conv_float, parse_str; rewrite Eo; reflexivity
+  end.
+
+Ltac refuse_complex :=
+  match goal with
+  | Hr : context [o_complex ?o ?b ?x] |- _ =>
+      unfold of_o in Hr;
+      let Eo := fresh "Eo" in destruct (o_complex o b x) as [[re im]| |] eqn:Eo; try discriminate;
+      left; eexists; cbn -[o_complex lift]; unfold parse_str; rewrite Eo; reflexivity
+  end.
+
+Ltac refuse_bigfloat :=
+  match goal with
+  | Hw : wf_tok (WInt ?z) = true, L3 : law_nf _, Hr : context [o_text ?o ?fn ?x] |- _ =>
+      cbn in Hw; unfold of_o in Hr;
+      let Eo := fresh "Eo" in destruct (o_text o fn x) as [t0| |] eqn:Eo; try discriminate;
+      left; eexists;
+      change (run_action o SBigFloatV (arm SBigFloatV (WInt z)) (WInt z))
+        with (lift (o_text o (bs "nf") (to_decZ (wrap_k KInt64 z))) (fun t => SV (XPtr (XBigFloat t))));
+      rewrite (in_range_int32_wrap64 z Hw); rewrite (L3 z ltac:(lia)); rewrite Eo; reflexivity
+  | Hr : context [o_text ?o ?fn ?x] |- (exists e, run_action _ ?s (arm _ ?w) _ = _) \/ _ =>
+      unfold of_o in Hr;
+      let Eo := fresh "Eo" in destruct (o_text o fn x) as [t0| |] eqn:Eo; try discriminate;
+      left; eexists;
+      first [ change (run_action o s (arm s w) w) with (lift (o_text o (bs "bf") x) (fun t => SV (XPtr (XBigFloat t))))
+            | change (run_action o s (arm s w) w) with (parse_str o PBigFloat 0 NtBigFloat x); unfold parse_str ];
+      rewrite Eo; reflexivity
+  end.
+
+Lemma float_arm_refuses orc t s w :
+  oracle_total orc -> law_digit_float orc -> law_bf_digit orc -> law_nf orc ->
+  float_type t = true -> sleaf_of t = Some s ->
+  scalar_tok w = true -> wf_tok w = true ->
+  rep_scalar orc t (den w) = RNone ->
+  (exists e, run_action orc s (arm s w) w = SE e) \/ run_action orc s (arm s w) w = SDefaultArm.
+Proof.
+  intros Ho L1 L2 L3 Ht Hs Hsc Hw Hr.
+  destruct t; try discriminate; cbn in Hs; inversion Hs; subst s; clear Hs.
+  all: destruct w as [ | | | | |neg|d|z|z|txt|c|str|b|g|y mo dd tm utc|h mi sec fr utc|ws|ws|n fs nx|k' ws|k'|w'];
+    try discriminate; unfold rep_scalar in Hr; cbn [den] in Hr; cbv iota beta in Hr; try discriminate.
+  all: try (destruct c as [|c0 c1] eqn:Ec; [discriminate|]; rewrite <- Ec in *; clear Ec c0 c1).
+  all: try (destruct str as [|c0 c1] eqn:Ec; [discriminate|]; rewrite <- Ec in *; clear Ec c0 c1).
+  all: cbn [rep_scalar_core rep_float] in Hr; try discriminate.
+  all: try (right; reflexivity).
+  all: try refuse_digit.
+  all: try refuse_int.
+  all: try refuse_complex.
+  all: try refuse_float.
+  all: try refuse_bigfloat.
+Qed.
+
 (* ------------------------------------------------------------------ C06 on scalar destinations (top level) *)
 
-Definition proved_scalar (t : gtype) : bool := match t with TInt _ => true | _ => simple_type t end.
+Definition proved_scalar (t : gtype) : bool := match t with TInt _ => true | _ => simple_type t || float_type t end.
+
+(* the laws assumed of the oracle table (each a fact about the standard library or the hardware) *)
+Record oracle_laws (orc : bytes -> bytes -> option bytes) : Prop := {
+  ol_f2i : law_f2i orc; ol_uuid : law_uuid orc; ol_digit : law_digit_float orc; ol_bfdigit : law_bf_digit orc; ol_nf : law_nf orc
+}.
 
 Definition fits (orc : bytes -> bytes -> option bytes) (t : gtype) (w : wire) : bool :=
   match t with TInt k => fits_int orc k w | _ => fits_simple orc t w end.
@@ -639,36 +825,42 @@ Proof.
 Qed.
 
 Theorem accepts_scalar orc opts te f t w v :
-  oracle_total orc -> law_f2i orc -> law_uuid orc ->
+  oracle_total orc -> oracle_laws orc ->
   proved_scalar t = true -> scalar_tok w = true -> wf_tok w = true ->
   rep_scalar orc t (den w) = RSome v ->
   exists v', dec_top orc opts te (S (S f)) t w = OOk v' /\ xeqv spec_fuel v' v = true.
 Proof.
-  intros Ho L1 L2 Ht Hs Hw Hr.
+  intros Ho [L1 L2 L3 L4 L5] Ht Hs Hw Hr.
   pose proof (proved_scalar_is_scalar t Ht) as Hsc.
   destruct (proved_scalar_leaf t Ht) as [s Hs0].
   destruct (simple_type t) eqn:Est.
   - destruct (simple_arm_value orc te t s w v L2 Est Hs0 Hs Hw Hr) as (v' & Ha & Hp & Hx).
     exists (post te s t v'). split; [|exact (Hx 199%nat)].
     apply (dec_top_scalar_value orc opts te (S f) t w s v' Hsc Hs0 Ha Hp).
-  - destruct t; try discriminate. eapply accepts_int; eauto.
+  - destruct (float_type t) eqn:Eft.
+    + destruct (float_arm_value orc te t s w v L3 L4 L5 Eft Hs0 Hs Hw Hr) as (v' & Ha & Hp & Hx).
+      exists (post te s t v'). split; [|exact (Hx 199%nat)].
+      apply (dec_top_scalar_value orc opts te (S f) t w s v' Hsc Hs0 Ha Hp).
+    + destruct t; try discriminate. eapply accepts_int; eauto.
 Qed.
 
 Theorem refuses_scalar_partial orc opts te f t w :
-  oracle_total orc ->
+  oracle_total orc -> oracle_laws orc ->
   proved_scalar t = true -> scalar_tok w = true -> wf_tok w = true ->
   rep_scalar orc t (den w) = RNone -> fits orc t w = true ->
   exists e, dec_top orc opts te (S (S f)) t w = OErr e.
 Proof.
-  intros Ho Ht Hs Hw Hr Hf.
+  intros Ho [L1 L2 L3 L4 L5] Ht Hs Hw Hr Hf.
   pose proof (proved_scalar_is_scalar t Ht) as Hsc.
   destruct (proved_scalar_leaf t Ht) as [s Hs0].
   assert (H : (exists e, run_action orc s (arm s w) w = SE e) \/ run_action orc s (arm s w) w = SDefaultArm).
   { destruct (simple_type t) eqn:Est.
     - apply (simple_arm_refuses orc t s w Ho Est Hs0 Hs Hw Hr).
       destruct t; try discriminate; exact Hf.
-    - destruct t; try discriminate. cbn in Hs0. inversion Hs0; subst s.
-      apply int_arm_refuses; assumption. }
+    - destruct (float_type t) eqn:Eft.
+      + apply (float_arm_refuses orc t s w Ho L3 L4 L5 Eft Hs0 Hs Hw Hr).
+      + destruct t; try discriminate. cbn in Hs0. inversion Hs0; subst s.
+        apply int_arm_refuses; assumption. }
   destruct H as [[e He]|Hd].
   - exists e. apply (dec_top_scalar_error orc opts te (S f) t w s e Hsc Hs0 He).
   - apply (default_arm_is_error orc opts te f t w s Ho Hsc Hs0 Hs Hw Hd).
@@ -897,12 +1089,12 @@ Lemma representable_ptr_scalar orc opts te n t w :
 Proof. intros Ht Hs. destruct t; try discriminate; destruct w; try discriminate; reflexivity. Qed.
 
 Theorem accepts_ptr_scalar orc opts te f t w v :
-  oracle_total orc -> law_f2i orc -> law_uuid orc ->
+  oracle_total orc -> oracle_laws orc ->
   proved_ptr t = true -> scalar_tok w = true -> wf_tok w = true ->
   representable orc opts te (S (S f)) (TPtr t) (den w) = RSome v ->
   exists v', dec_top orc opts te (S (S f)) (TPtr t) w = OOk v' /\ xeqv spec_fuel v' v = true.
 Proof.
-  intros Ho L1 L2 Ht Hs Hw Hr. apply andb_prop in Ht. destruct Ht as [Hps Hpt].
+  intros Ho [L1 L2 L3 L4 L5] Ht Hs Hw Hr. apply andb_prop in Ht. destruct Ht as [Hps Hpt].
   pose proof (proved_scalar_is_scalar t Hps) as Hsc.
   rewrite (representable_ptr_scalar orc opts te f t w Hsc Hs) in Hr.
   destruct (proved_scalar_leaf t Hps) as [s Hs0].
@@ -912,12 +1104,17 @@ Proof.
   - assert (Hr' : exists v0, rep_scalar orc t (den w) = RSome v0 /\ v = XPtr v0).
     { destruct w; try congruence; destruct (rep_scalar orc t _) as [v0| | |]; try discriminate; inversion Hr; eauto. }
     destruct Hr' as (v0 & Hr0 & Ev). subst v.
-    destruct (simple_type t) eqn:Est.
-    + destruct (simple_arm_value orc te t s w v0 L2 Est Hs0 Hs Hw Hr0) as (v' & Ha & Hp & Hx).
+    assert (Hgen : forall v', run_action orc s (arm s w) w = SV v' -> plain (post te s t v') = true ->
+                   (forall n, xeqv (S n) (post te s t v') v0 = true) ->
+                   exists y, dec_top orc opts te (S (S f)) (TPtr t) w = OOk y /\ xeqv spec_fuel y (XPtr v0) = true).
+    { intros v' Ha Hp Hx.
       destruct (ptr_scalar_leaf t Hpt) as (s' & Hs' & _ & _ & _ & _ & Hpost). rewrite Hs0 in Hs'. inversion Hs'; subst s'.
       rewrite Hpost in Hp. exists (XPtr v'). split.
-      * apply (dec_top_ptr_value orc opts te f t w s v' Hpt Hs0 Hn Ha Hp).
-      * unfold spec_fuel. rewrite (xeqv_ptr 199 v' v0). specialize (Hx 198%nat). rewrite Hpost in Hx. exact Hx.
+      - apply (dec_top_ptr_value orc opts te f t w s v' Hpt Hs0 Hn Ha Hp).
+      - unfold spec_fuel. rewrite (xeqv_ptr 199 v' v0). specialize (Hx 198%nat). rewrite Hpost in Hx. exact Hx. }
+    destruct (simple_type t) eqn:Est; [|destruct (float_type t) eqn:Eft].
+    + destruct (simple_arm_value orc te t s w v0 L2 Est Hs0 Hs Hw Hr0) as (v' & Ha & Hp & Hx). exact (Hgen v' Ha Hp Hx).
+    + destruct (float_arm_value orc te t s w v0 L3 L4 L5 Eft Hs0 Hs Hw Hr0) as (v' & Ha & Hp & Hx). exact (Hgen v' Ha Hp Hx).
     + destruct t; try discriminate. cbn in Hs0. inversion Hs0; subst s.
       pose proof (int_arm_value orc k w v0 L1 Hs Hw Hr0) as Ha.
       pose proof (int_rep_plain orc k w v0 Hs Hr0) as Hp.
@@ -927,12 +1124,12 @@ Proof.
 Qed.
 
 Theorem refuses_ptr_scalar_partial orc opts te f t w :
-  oracle_total orc ->
+  oracle_total orc -> oracle_laws orc ->
   proved_ptr t = true -> scalar_tok w = true -> wf_tok w = true ->
   representable orc opts te (S (S f)) (TPtr t) (den w) = RNone -> fits orc t w = true ->
   exists e, dec_top orc opts te (S (S f)) (TPtr t) w = OErr e.
 Proof.
-  intros Ho Ht Hs Hw Hr Hf. apply andb_prop in Ht. destruct Ht as [Hps Hpt].
+  intros Ho [L1 L2 L3 L4 L5] Ht Hs Hw Hr Hf. apply andb_prop in Ht. destruct Ht as [Hps Hpt].
   pose proof (proved_scalar_is_scalar t Hps) as Hsc.
   rewrite (representable_ptr_scalar orc opts te f t w Hsc Hs) in Hr.
   destruct (proved_scalar_leaf t Hps) as [s Hs0].
@@ -940,8 +1137,9 @@ Proof.
   assert (Hr0 : rep_scalar orc t (den w) = RNone).
   { destruct w; try congruence; destruct (rep_scalar orc t _) as [v0| | |]; try discriminate; reflexivity. }
   assert (H : (exists e, run_action orc s (arm s w) w = SE e) \/ run_action orc s (arm s w) w = SDefaultArm).
-  { destruct (simple_type t) eqn:Est.
+  { destruct (simple_type t) eqn:Est; [|destruct (float_type t) eqn:Eft].
     - apply (simple_arm_refuses orc t s w Ho Est Hs0 Hs Hw Hr0). destruct t; try discriminate; exact Hf.
+    - apply (float_arm_refuses orc t s w Ho L3 L4 L5 Eft Hs0 Hs Hw Hr0).
     - destruct t; try discriminate. cbn in Hs0. inversion Hs0; subst s. apply int_arm_refuses; assumption. }
   destruct H as [[e He]|Hd].
   - exists e. apply (dec_top_ptr_error orc opts te f t w s e Hpt Hs0 Hn He).
